@@ -5,6 +5,8 @@
 import Indi.Model.Wire
 import Indi.Generated.Registry
 import Indi.Spec.Msg
+import Indi.Model.RtrGlue
+import Indi.Spec.Rtr
 
 open Indi Indi.Wire
 
@@ -12,8 +14,71 @@ def encResMsg : Except Err Msg → String
   | .ok m => "ok " ++ encMsg m
   | .error e => "err " ++ encErr e
 
+/-! router component -/
+
+def pPolicy : P Rtr.Policy := do
+  let t ← tok
+  match t with
+  | "Never" => pure .never
+  | "Also" => pure .also
+  | "Only" => pure .only
+  | "~" => pure .never
+  | _ => fail
+
+def pSender : P Rtr.Sender := do
+  let t ← tok
+  match t.toList with
+  | ['n'] => pure .nobody
+  | 'c' :: r => match (String.ofList r).toNat? with
+    | some n => pure (.cli n)
+    | none => fail
+  | 'd' :: r => match (String.ofList r).toNat? with
+    | some n => pure (.dev n)
+    | none => fail
+  | _ => fail
+
+/-- `D id name|~`, `C id`, `U id`, `S tag device|~ policy sender`; unknown tags make the case unusable -/
+def pOp : P Rtr.Op := do
+  let t ← tok
+  match t with
+  | "D" => do let i ← pNat; let n ← pOpt; pure (.regDev ⟨i, n⟩)
+  | "C" => do let i ← pNat; pure (.regCli i)
+  | "U" => do let i ← pNat; pure (.unreg i)
+  | "S" => do
+    let tag ← pStr
+    let dev ← pOpt
+    let pol ← pPolicy
+    let sd ← pSender
+    match Rtr.rmsgOf Generated.registry tag dev pol with
+    | some m => pure (.send m sd)
+    | none => fail
+  | _ => fail
+
+def encTarget : Rtr.Target → String
+  | .dev i => "d" ++ toString i
+  | .cli i => "c" ++ toString i
+
+def encTrace (t : List (List Rtr.Target)) : String :=
+  String.intercalate " | " (t.map fun ds => String.intercalate " " (ds.map encTarget))
+
+def encPolicy : Rtr.Policy → String
+  | .never => "Never" | .also => "Also" | .only => "Only"
+
+def encRState (σ : Rtr.State) : String :=
+  "clients " ++ String.intercalate "," (σ.clients.map toString) ++ " blob " ++
+    String.intercalate ";" (σ.blob.map fun (c, d) => toString c ++ ":" ++
+      String.intercalate "," (d.map fun (k, p) => encOpt k ++ "=" ++ encPolicy p))
+
 def handle (ts : List String) : String :=
   match ts with
+  | "router" :: "hist" :: rest =>
+    match runP (pList pOp) rest with
+    | some h => encTrace (Rtr.trace Rtr.init h)
+    | none => "bad-op"
+  | "spec" :: "router" :: rest =>
+    match runP (pList pOp) rest with
+    | some h => encTrace (Spec.Rtr.expectedTrace h)
+    | none => "bad-op"
   | "codec" :: "eq" :: rest =>
     match runP (do let a ← pMsg; let b ← pMsg; pure (a, b)) rest with
     | some (a, b) => encBool (pyEq a b)
